@@ -401,7 +401,12 @@ def one_grammar(ctx, shape, recursive, linear, modes):
     boolv = results[('bool', 'fixed-point', False, 'float64')].get('value')
     if real and logv:
         ctx.evaluations += 1
-        if not all(close(l, math.log(r) if r > 0 else -math.inf, 1e-6) for l, r in zip(logv, real)):
+        # the Real iteration stops on an ABSOLUTE tolerance (1e-10 here, so its result is within about 1e-8 of the limit), the Log
+        # iteration on an absolute tolerance of the LOG value: for a tiny Z (1e-6) the Real result has a relative error of 1e-5 and its
+        # logarithm differs accordingly; the comparison therefore also accepts |exp(log-result) - real-result| <= 1e-8
+        # (false alarm of sweep 12, thorough tier, seed 5: Z = 1.0177e-06)
+        if not all(close(l, math.log(r) if r > 0 else -math.inf, 1e-6) or (math.isfinite(l) and abs(math.exp(l) - r) <= 1e-8)
+                   for l, r in zip(logv, real)):
             ctx.fail('the Log result is not the logarithm of the Real result', case, logv, real, tags=['log-vs-real'])
     # ... and so are the gradients (scalar start): d log Z / d log w = (w / Z) dZ/dw, entry by entry
     rg = results[('real', 'fixed-point', False, 'float64')].get('grads')
@@ -415,7 +420,8 @@ def one_grammar(ctx, shape, recursive, linear, modes):
                     ctx.fail('a factor has a gradient in one of Real/Log and none in the other', dict(case, factor=i), gl, gr, tags=['log-vs-real-grad'])
                 continue
             want = [wv * g / real[0] for wv, g in zip(w, gr)]
-            if not all(wv == 0 or close(a, b, 1e-5) for a, b, wv in zip(gl, want, w)):
+            tz = 1e-5 + 2e-8 / real[0]          # (w / Z) dZ/dw inherits the relative error of the Real result: about 1e-8 / Z
+            if not all(wv == 0 or close(a, b, tz) for a, b, wv in zip(gl, want, w)):
                 ctx.fail('the Log-semiring gradient is not (w / Z) times the Real-semiring gradient', dict(case, factor=i), gl, want, tags=['log-vs-real-grad'])
                 break
     if real and boolv is not None:
